@@ -153,8 +153,9 @@ func enumerate(sigma []byte, maxLen int, f func([]byte)) {
 	}
 }
 
-var nameAtoms = []string{"a", "b/c.txt", "x y", "-", "--", "é", " ", " ", "　", "\u0085", " ", "\t", "\xff", "\xe2\x80", "a.go", "-- q --", ">"}
-var lineAtoms = []string{"hello", "", "-- a --", "--a --", "-- a--", "-- --", "--  --", "--   --", "--   --", "-- 　x  --",
+var nameAtoms = []string{"a", "b/c.txt", "x y", "-", "--", "é", " ", " ", "　", "\u0085", " ", "\t", "\xff", "\xe2\x80", "a.go", "-- q --", ">",
+	"%", "%s", "%d", "%%", "%!", "%20", "100%.txt", "50% done", "%v%", "a%"}
+var lineAtoms = []string{"hello", "", "-- 100%.txt --", "-- a%20b --", "-- %s --", "-- %d%% --", "-- 50% done --", "-- a --", "--a --", "-- a--", "-- --", "--  --", "--   --", "--   --", "-- 　x  --",
 	"-- a -- ", " -- a --", "--", "-- ", " --", "-- -", "- --", ">", ">-- a --", "x -- a --", "-- a --x", "-- a b --", "-- \t --", "-- a\r --", "\r", "-- a --\r", "-- \xff --"}
 var eols = []string{"\n", "\n", "\n", "\r\n", "\r\n", "\r\r\n", "\r"}
 
@@ -282,7 +283,7 @@ func (rn *runner) mismatch(p pending, i int, model string) {
 	}
 	detail := "model (corrected behaviour, theorems proved about it) and implementation differ"
 	switch fn {
-	case "parseidx", "needsquoteidx":
+	case "parseidx", "needsquoteidx", "quoteidx", "unquoteidx":
 		detail = "statement-level model (TxtarIndex.v, follows archive.go index by index) and implementation differ"
 	case "holds", "holds14":
 		detail = "the MODEL violates its own property statement on this input (c03_holds_on / c14_holds_on is not true): the theorems cannot hold for the current constants/definitions; this input is the witness"
@@ -305,9 +306,9 @@ func implFn(fn string, x []byte) string {
 		return refParse(x)
 	case "needsquote", "needsquoteidx":
 		return implNeedsQuote(x)
-	case "quote":
+	case "quote", "quoteidx":
 		return implQuote(x)
-	case "unquote":
+	case "unquote", "unquoteidx":
 		return implUnquote(x)
 	}
 	return "?"
@@ -462,6 +463,8 @@ func main() {
 		}
 	}
 	seen := 0
+	st := &stability{}
+	var prevX []byte
 	one := func(x []byte, tag string) {
 		x = append([]byte{}, x...)
 		seen++
@@ -493,9 +496,10 @@ func main() {
 			}
 		} else {
 			nq := implNeedsQuote(x)
-			p.fn = []string{"needsquote", "quote", "unquote", "needsquoteidx", "holds14"}
-			p.reqs = []string{"needsquote " + hx, "quote " + hx, "unquote " + hx, "needsquoteidx " + hx, "holds14 " + hx}
-			p.impl = []string{nq, implQuote(x), implUnquote(x), nq, "true"}
+			p.fn = []string{"needsquote", "quote", "unquote", "needsquoteidx", "holds14", "quoteidx", "unquoteidx"}
+			p.reqs = []string{"needsquote " + hx, "quote " + hx, "unquote " + hx, "needsquoteidx " + hx, "holds14 " + hx, "quoteidx " + hx, "unquoteidx " + hx}
+			iq, iu := implQuote(x), implUnquote(x)
+			p.impl = []string{nq, iq, iu, nq, "true", iq, iu}
 			res.Case(hx, bytes.Contains(x, []byte("--")) || bytes.Contains(x, []byte(">")))
 			res.Count("needsquote:" + nq)
 			res.Count("quote:" + strings.SplitN(p.impl[1], " ", 2)[0])
@@ -506,6 +510,26 @@ func main() {
 				}
 			}
 		}
+		// multi-call stability (stable.go): results of earlier calls must survive later calls
+		if prop == "C03" {
+			st.track(rn, "Parse", x)
+			st.track(rn, "Format", x)
+		} else {
+			st.track(rn, "Quote", x)
+			st.track(rn, "Unquote", x)
+			st.track(rn, "Format/1", x)
+		}
+		if seen%64 == 0 {
+			if prop == "C03" {
+				st.fromOtherGoroutine(rn, []string{"Parse", "Format"}, prevX)
+			} else {
+				st.fromOtherGoroutine(rn, []string{"Unquote", "Format/1", "Quote"}, prevX)
+			}
+		}
+		if prop != "C03" && seen%256 == 0 {
+			st.concurrentQuote(rn, x, prevX)
+		}
+		prevX = x
 		if seen%9973 == 1 {
 			res.Sample(map[string]any{"input": fmt.Sprintf("%q", x), "impl": p.impl, "source": tag})
 		}
@@ -523,6 +547,21 @@ func main() {
 			os.Exit(2)
 		}
 		x := common.UnHex(rp.Violation.Input["x"])
+		if in := rp.Violation.Input; in["fn2"] != "" {
+			// a pair of calls: the result of fn(x) must survive fn2(x2)
+			x2 := common.UnHex(in["x2"])
+			if in["where"] == "concurrent goroutines" {
+				for i := 0; i < 50; i++ {
+					st.concurrentQuote(rn, x, x2)
+				}
+			} else if pairFails(in["fn"], x, in["fn2"], x2) {
+				res.Violate(common.Violation{Kind: "impl-violation", Oracle: "result-stable-across-calls", Input: in,
+					Key: rp.Violation.Key, Detail: "replayed: the result of " + in["fn"] + "(x) changed when " + in["fn2"] + "(x2) was called"})
+			}
+			res.Case("replay-pair", true)
+			res.Write(f.Out)
+			return
+		}
 		if strings.HasPrefix(rp.Violation.Input["request"], "u8 ") {
 			rn.u8One(x)
 		}
@@ -559,6 +598,14 @@ func main() {
 			one([]byte("-- "+string(w)+" --"+tail), "marker-shaped")
 			one([]byte("x\n-- "+string(w)+" --"+tail), "marker-shaped")
 		}
+	})
+	// names that a printf-style formatter would misread ('%' is data in a file name)
+	enumerate([]byte{'%', 's', 'd', 'a', '!', '2'}, 4, func(w []byte) {
+		if !bytes.Contains(w, []byte("%")) {
+			return
+		}
+		one([]byte("-- "+string(w)+" --\n"), "percent-names")
+		one([]byte("x\n-- a"+string(w)+" --\nb\n-- "+string(w)+".txt --"), "percent-names")
 	})
 	// 3. structured
 	r := common.NewRNG(f.Seed)
